@@ -220,10 +220,10 @@ def c32(t):
     out = C.Outcome("C32", "model_checking", t, ["<ordinals::Rune as Display>::fmt", "<ordinals::Rune as FromStr>::from_str", "Rune::{is_reserved,reserved,commitment,RESERVED}"])
     out.assumptions = [E2_NOTE,
         "strings are explicit sequences of symbolic chars (any Unicode scalar) of a concrete length per query; String/Chars/write! are modelled as char lists",
-        "c32_rune_boundary_roundtrip is a concrete evaluation of the real Display/FromStr MIR at about 80 boundary values (machine widths, first/last name of every length), not a solver verdict over a range",
+        "c32_spaced_rune_boundary_roundtrip likewise evaluates SpacedRune Display/FromStr concretely at 172 (name, spacer mask) boundary pairs", "c32_rune_boundary_roundtrip is a concrete evaluation of the real Display/FromStr MIR at about 80 boundary values (machine widths, first/last name of every length), not a solver verdict over a range",
         "print->parse is decided only for names up to 5 letters (n <= 12356629): z3 and cvc5 do not finish the 128-bit base-26 identity for longer names; parse->value is decided for lengths 0..=29",
         "that distinct names denote distinct integers (uniqueness of bijective base-26 numerals) is used only through print(parse(s)) == s for short names",
-        "SpacedRune Display/FromStr (spacer bitmasks) is NOT decided: CBMC does not finish SpacedRune::from_str even for 7 chars and the path count of the MIR engine grows as 1.6^len"]
+        "SpacedRune Display/FromStr (spacer bitmasks) is NOT decided symbolically over a range (CBMC does not finish SpacedRune::from_str even for 7 chars and the path count of the MIR engine grows as 1.6^len); only the boundary pairs above are evaluated"]
     run_e2(out, "C32", t)
     return out.finish()
 
